@@ -20,10 +20,10 @@ NOTE = ("Trusted: Lean 4.33 kernel (axioms audited per theorem: propext, Classic
 P = {
  "C01": ("FULL proof: for every well-formed text (every &str, every &[u16]), every data source and every base-direction choice, BidiInfo::new / ParagraphBidiInfo::new as modelled cannot panic and the levels of every paragraph are the expansion to code units of UAX #9's levels (Spec.paragraphLevels: X1-X8, X9, X10/BD13, W1-W7, BD16/N0-N2 with the 63 limit, I1-I2, and the level carried by removed characters) of the paragraph's characters with their reported classes, at the P2/P3 paragraph level (C01_bidiInfo, C01_paragraphBidiInfo, C01_chars, C01_unit; built-in data for &str and &[u16]: C01_hardcoded_str, C01_hardcoded_utf16 and the _single forms). Proved by stages (StageX = C11_sim, StageSeq, StageW, StageN incl. retained BN units, StageI, StageFill, pure-LTR shortcut, Expand = unit-length independence) and composed in Lemmas/C01Compose*. Since the repair of finding D9 no hypothesis on the data source's bracket classes remains. Tie to the code: Impl/Model correspondence end-to-end and stage by stage through the cfg hooks; the Spec oracle on the crate's own answers finds the replay (generated texts incl. depth > 125, > 63 pending brackets over several level runs, every bracket pair of the reference in N0-sensitive templates, > 256 sibling isolates, removed-only text, multi-unit characters; exhaustive small scope in the thorough tier).", "Lean theorems (Model = UAX #9 Spec, all inputs) + Impl/Model correspondence (end-to-end and per stage via hooks) + Spec oracle"),
  "C02": ("FULL proof: partition (C02_partition), P2/P3 (C02_level), X5c as reported (C02_classes, uniform), single-paragraph mode (C02_single), no panic, for every well-formed text, every data source and direction (no proviso on the width of FSI-class characters since the repair of finding D10); correspondence on paragraphs/classes; Spec oracle (BD9 by depth counting, P2/P3, X5c).", "Lean theorems + correspondence + Spec oracle"),
- "C03": ("FULL proof: the scan equals the declarative L1 of the Spec on every well-formed line (C03_l1, C03_line), levels outside the line untouched (C03_outside), per-character variant (C03_per_char), the reset_to assert unreachable; relative correspondence (crate's own classes/levels in, line levels out).", "Lean theorems + correspondence + Spec oracle"),
+ "C03": ("FULL proof: the scan equals the declarative L1 of the Spec on every well-formed line (C03_l1, C03_line), levels outside the line untouched (C03_outside), per-character variant (C03_per_char), the reset_to assert unreachable; end to end on the analysis' own vectors and against UAX #9 for any line inside a paragraph (C03_pipeline, C03_pipeline_uax9, _single forms: no hypothesis on classes/levels remains); relative correspondence (crate's own classes/levels in, line levels out).", "Lean theorems + correspondence + Spec oracle"),
  "C04": ("FULL proof for every level sequence: no panic, length, permutation, identity without odd levels, equality with the Spec's L2 (C04_eq_spec); correspondence on generated level vectors incl. the 126 region.", "Lean theorems + correspondence + Spec oracle"),
- "C05": ("FULL proof: no panic (incl. lines wholly at 126), the runs are the maximal single-level pieces of the line (C05_partition), their order reversed-if-odd is the Spec's L2 order (C05_order); the deprecated copy is the same Model function and is compared with the crate's deprecated function on every case.", "Lean theorems + correspondence + Spec oracle"),
- "C06": ("FULL proof: no panic, the result's characters are L2 of the per-character L1 levels (C06_chars), a permutation of the line's characters (C06_perm), whole characters only (C06_whole_chars, C06_run_boundaries), the line itself without odd level (C06_noop); the uniformity of stored levels these use is C08_uniform (proved); relative correspondence; Spec oracle.", "Lean theorems + correspondence + Spec oracle"),
+ "C05": ("FULL proof: no panic (incl. lines wholly at 126), the runs are the maximal single-level pieces of the line (C05_partition), their order reversed-if-odd is the Spec's L2 order (C05_order); end to end on the analysis' own vectors and against UAX #9 (C05_pipeline, C05_pipeline_uax9, _single); the deprecated copy is the same Model function and is compared with the crate's deprecated function on every case.", "Lean theorems + correspondence + Spec oracle"),
+ "C06": ("FULL proof: no panic, the result's characters are L2 of the per-character L1 levels (C06_chars), a permutation of the line's characters (C06_perm), whole characters only (C06_whole_chars, C06_run_boundaries), the line itself without odd level (C06_noop); the uniformity of stored levels these use is C08_uniform (proved); END TO END (C06_pipeline_uax9, C06_pipeline_uax9_str): for every data source, well-formed text, base direction, paragraph and line inside it, reorder_line does not panic and returns the line's characters in the order L2(L1(levels UAX #9 assigns)) - the stored vectors do not occur in the statement; relative correspondence; Spec oracle.", "Lean theorems + correspondence + Spec oracle"),
  "C07": ("FULL proof for the represented panic sites: constructing either analysis cannot panic for any well-formed text / any &str / any &[u16] (C07_analysis, C07_analysis_str, C07_analysis_u16, C07_para) and every line query (levels, per-char levels, runs, deprecated runs, reorder_visual, reorder_line, direction, level_at, has_rtl) returns normally for every line on character boundaries inside a paragraph, both encodings, both analysis types (C07_total, C07_total_single, C07_total_str, C07_total_str_single, C07_total_u16). Index expressions classified as structural in DESIGN §3 and the std calls are covered by the correspondence only: every call runs under catch_unwind with debug assertions and overflow checks on (generators include removed-only text, B inside single-paragraph text, depth > 125, > 63 brackets, > 256 sibling isolates, lines wholly at 126).", "Lean no-panic theorems + catch_unwind correspondence"),
  "C08": ("FULL proof: one entry per code unit (C08_len_*), classes uniform (C08_uniform_classes), stored levels uniform within every character for both analysis types (C08_uniform, C08_uniform_levels_multi/_single, via the Expand lemmas), levels between the paragraph level and 126 (C08_range_*), line levels uniform (C03_uniform), per-character vector one entry per character; oracle: uniformity/range predicates on every vector the crate returns.", "Lean theorems + correspondence + Spec oracle"),
  "C09": ("FULL proof: the UTF-16 text source enumerates the lossy decoding (C18); same characters, raw classes, base direction, paragraphs (character ranges and levels), reported classes and levels, character for character, as the UTF-8 analysis of the lossy decoding (C09_same_chars, C09_base_direction, C09_paragraphs, C09_classes, C09_levels, C09_levels_uniform, C09_levels_hardcoded, C09_single_paragraph_api); line queries follow from C03-C06 being functions of classes/levels; oracle: UTF-16 API vs UTF-8 API on the lossy decoding, per character (levels, line levels per unit and per character, runs, reordered line segment-wise, exact encoding for well-formed input), std-only segmentation in the harness.", "Lean theorems + metamorphic oracle"),
